@@ -107,6 +107,8 @@ def match_finding(known, pid, rec):
             continue
         if k.get('fuc') and k['fuc'] != rec['fuc']:
             continue
+        if k.get('fuc_prefix') and not rec['fuc'].startswith(k['fuc_prefix']):
+            continue
         if k.get('obligation_kind') and k['obligation_kind'] != rec['kind']:
             continue
         if k.get('label') and k['label'] not in (rec['label'] or ''):
@@ -210,6 +212,8 @@ def run(pid, tier, seed, update_lock=False, verbose=False, only=None):
                 kf = match_finding(known, pid, rec)
                 if kf is not None:
                     known_hits.append((kf, rec))
+                    n_obl -= 1          # reported separately (coverage.refuted_as_known_finding), not among the proved ones
+                    nf -= 1
                 else:
                     refuted.append(rec)
             elif rec['status'] == 'disagree':
@@ -280,6 +284,7 @@ def run(pid, tier, seed, update_lock=False, verbose=False, only=None):
             kinds=kinds, by_backend=by_backend,
             covers=dict(run=covers, satisfiable=covers_sat),
             refuted=[dict(obligation=ob_key(r), line=r['line'], clause=r['note']) for r in refuted],
+            refuted_as_known_finding=len(known_hits),
             known_findings_reported=[dict(obligation=ob_key(rec), what=k.get('what')) for k, rec in known_hits],
             undecided=undecided, outside_subset=[u for u in undecided if 'outside-subset' in u],
             dropped_by_extraction=dict(rules=DROPPED_BY_EXTRACTION, measured_calls_dropped=dropped),
